@@ -23,7 +23,9 @@ R.callee_map[("*", "c_pop")] = "PriorityQueue.c_pop/any"
 R.import_proved(_COV.R, "contracts.coverage_py", ["CovMonitor.__init__", "CovMonitor.max_coverage_in_range", "CovMonitor.add_read"])
 R.import_proved(_G.R, "contracts.graph_py", ["ComponentFinder.__init__", "ComponentFinder.merge", "ComponentFinder.find"])
 R.declare_class("CReadSet", {"reads": LIST(REF("CRead"))})
-R.declare_class("CRead", {"pos": LIST(INT)})
+R.declare_class("CRead", {"pos": LIST(INT), "vars": LIST(REF("PyVar")), "source_id": INT})
+R.declare_class("PyVar", {"position": INT})
+R.iter_fields["CRead"] = "vars"
 R.ctypes.update({"Read*": REF("CRead"), "unordered_set[...]": SET(INT), "PriorityQueue": REF("PriorityQueue")})
 P = ["C07"]
 
@@ -379,7 +381,50 @@ R.iter_fields["PyReadSet"] = "__reads__"
 INDEXES = TUPLE(LIST(INT), DICT(INT, INT), DICT(INT, LIST(INT)), SET(INT))
 
 
+GETPOS_ARR = z3.Function("READSET_POSITIONS", z3.IntSort(), z3.ArraySort(z3.IntSort(), z3.IntSort()))
+GETPOS_LEN = z3.Function("READSET_NPOSITIONS", z3.IntSort(), z3.IntSort())
+
+
+class V2R(VModel):
+    """variant_to_reads_map = defaultdict(list): variant index -> list of read indices (a missing index reads as the empty list)"""
+
+    def __init__(self, d=None):
+        self.d = d if d is not None else VDict(INT, LIST(INT), z3.K(z3.IntSort(), z3.BoolVal(False)), z3.K(z3.IntSort(), to_z3(VList(INT, z3.K(z3.IntSort(), z3.IntVal(0)), z3.IntVal(0)))))
+
+    def sym_getitem(self, eng, st, key):
+        k = to_z3(key)
+        lst = from_z3(self.d.map[k], self.d.val)
+        return VList(INT, lst.arr, z3.If(self.d.dom[k], lst.len, 0))
+
+    def sym_setitem(self, eng, st, key, v):
+        k = to_z3(key)
+        return V2R(VDict(INT, LIST(INT), z3.Store(self.d.dom, k, True), z3.Store(self.d.map, k, to_z3(v))))
+
+    def sym_contains(self, eng, st, x):
+        return self.d.dom[to_z3(x)]
+
+    def as_value(self):
+        return self.d
+
+    def havoc(self, eng, st, name):
+        return V2R(DICT(INT, LIST(INT)).fresh(name))
+
+
+R.external_models["defaultdict"] = lambda eng, st, node, args, kwargs: V2R()
+R.constants["list"] = z3.IntVal(0)
+
+
 class PyReadSetModel:
+    @staticmethod
+    def method(eng, st, obj, name, args, kwargs):
+        if name == "get_positions" and not args:
+            # C++ ReadSet::get_positions: the strictly increasing list of all variant positions of all reads (assumed, see POSITIONS_OK)
+            eng.assumptions.add("ReadSet.get_positions (C++) returns the strictly increasing list of exactly the variant positions of the reads (assumed)")
+            n = GETPOS_LEN(obj.ref)
+            st.assume(n >= 0)
+            return VList(INT, GETPOS_ARR(obj.ref), n)
+        return NotImplemented
+
     @staticmethod
     def len(eng, st, obj):
         return eng.load_field(st, VRef("CReadSet", to_z3(eng.load_field(st, obj, "thisptr"))), "reads").len
@@ -403,28 +448,85 @@ ReadModel.len = PyReadLen.len
 
 @R.spec
 def INDEXED(eng, st, rs, positions, vcf_indices, v2r):
-    """what _construct_indexes returns (assumed): positions lists every variant position of every read, vcf_indices maps each of them to an index below
-    len(positions), the map has an entry for each such index, positions within a read differ from its first one and the index of the first does not
-    exceed the index of the last; SPAN_B/SPAN_E name [index of first, index of last + 1)"""
+    """what _construct_indexes returns: positions lists every variant position of every read, vcf_indices maps each of them to its index in positions, the
+    variant -> reads map has an entry for each such index, positions within a read differ from its first one and the index of the first does not exceed the
+    index of the last -- PROVED as the postcondition of _construct_indexes; SPAN_B/SPAN_E are the NAMES of [index of first, index of last + 1) (ghost
+    definitions attached to that call)"""
     reads, parr, plen = _reads(eng, st, rs)
+    if isinstance(v2r, VModel):
+        v2r = v2r.as_value()
     r, i, j = z3.Ints(fresh_name("r") + " " + fresh_name("i") + " " + fresh_name("j"))
     ref = reads.arr[r]
     idx = lambda p: vcf_indices.map[p]
     return [
         positions.len >= 0,
         z3.ForAll([r], z3.Implies(z3.And(r >= 0, r < reads.len, plen[ref] >= 1), z3.And(
-            SPAN_B(r) == idx(parr[ref][0]), SPAN_E(r) == idx(parr[ref][plen[ref] - 1]) + 1, 0 <= SPAN_B(r), SPAN_B(r) < SPAN_E(r), SPAN_E(r) <= positions.len)),
-            patterns=[reads.arr[r], SPAN_B(r), SPAN_E(r)]),
+            0 <= idx(parr[ref][0]), idx(parr[ref][0]) < idx(parr[ref][plen[ref] - 1]) + 1, idx(parr[ref][plen[ref] - 1]) + 1 <= positions.len)),
+            patterns=[reads.arr[r]]),
         z3.ForAll([r, i], z3.Implies(z3.And(r >= 0, r < reads.len, i >= 0, i < plen[ref]), z3.And(
             vcf_indices.dom[parr[ref][i]], v2r.dom[idx(parr[ref][i])], z3.Implies(i >= 1, parr[ref][i] != parr[ref][0]),
             z3.Exists([j], z3.And(j >= 0, j < positions.len, positions.arr[j] == parr[ref][i])))), patterns=[parr[reads.arr[r]][i]]),
     ]
 
 
-R.contract("_construct_indexes", assumed=True, params={"readset": REF("PyReadSet"), "preferred_source_ids": INT}, returns=INDEXES,
-           ensures=[("indexed", "INDEXED(readset.thisptr, result[0], result[1], result[2])"),
-                    ("preferred-are-reads", "forall(k, implies(k in result[3], 0 <= k and k < len(readset.thisptr.reads)))")],
-           extra={"target": None}, props=P)
+@R.spec
+def SPANS_NAMED(eng, st, rs, vcf_indices):
+    """ghost definition: SPAN_B(r) / SPAN_E(r) name the index range [index of read r's first variant, index of its last variant + 1)"""
+    reads, parr, plen = _reads(eng, st, rs)
+    r = z3.Int(fresh_name("r"))
+    ref = reads.arr[r]
+    idx = lambda p: vcf_indices.map[p]
+    return z3.ForAll([r], z3.Implies(z3.And(r >= 0, r < reads.len, plen[ref] >= 1), z3.And(SPAN_B(r) == idx(parr[ref][0]), SPAN_E(r) == idx(parr[ref][plen[ref] - 1]) + 1)),
+                     patterns=[reads.arr[r], SPAN_B(r), SPAN_E(r)])
+
+
+@R.spec
+def READSET_OK(eng, st, prs):
+    """type invariants of the Python-level read set (assumed of the C++ ReadSet after ReadSet.sort()): every read is an object whose variant wrappers mirror its
+    position list, positions within a read strictly increase, and get_positions() is the strictly increasing list covering every variant position"""
+    rs = VRef("CReadSet", to_z3(eng.load_field_raw(st, prs, "thisptr")))
+    reads, parr, plen = _reads(eng, st, rs)
+    varr = eng.heap_arr(st, "CRead.vars#arr", z3.ArraySort(z3.IntSort(), z3.IntSort()))
+    vlen = eng.heap_arr(st, "CRead.vars#len", z3.IntSort())
+    vpos = eng.heap_arr(st, "PyVar.position", z3.IntSort())
+    r, i, j, a, b = z3.Ints(" ".join(fresh_name(x) for x in "rijab"))
+    ref = reads.arr[r]
+    P, N = GETPOS_ARR(to_z3(prs)), GETPOS_LEN(to_z3(prs))
+    inr = z3.And(r >= 0, r < reads.len)
+    return [
+        z3.ForAll([r], z3.Implies(inr, z3.And(ref > 0, ref < eng.alloc_bound(st, "CRead"), vlen[ref] == plen[ref], plen[ref] >= 0)), patterns=[reads.arr[r]]),
+        z3.ForAll([r, i], z3.Implies(z3.And(inr, i >= 0, i < plen[ref]), z3.And(varr[ref][i] > 0, varr[ref][i] < eng.alloc_bound(st, "PyVar"), vpos[varr[ref][i]] == parr[ref][i])),
+                  patterns=[varr[reads.arr[r]][i]]),
+        z3.ForAll([r, i, j], z3.Implies(z3.And(inr, 0 <= i, i < j, j < plen[ref]), parr[ref][i] < parr[ref][j]), patterns=[z3.MultiPattern(parr[reads.arr[r]][i], parr[reads.arr[r]][j])]),
+        z3.ForAll([a, b], z3.Implies(z3.And(0 <= a, a < b, b < N), P[a] < P[b]), patterns=[z3.MultiPattern(P[a], P[b])]),
+        z3.ForAll([r, i], z3.Implies(z3.And(inr, i >= 0, i < plen[ref]), z3.And(POSIDX(to_z3(prs), parr[ref][i]) >= 0, POSIDX(to_z3(prs), parr[ref][i]) < N,
+                                                                                 P[POSIDX(to_z3(prs), parr[ref][i])] == parr[ref][i])), patterns=[parr[reads.arr[r]][i]]),
+    ]
+
+
+POSIDX = z3.Function("READSET_INDEX_OF_POSITION", z3.IntSort(), z3.IntSort(), z3.IntSort())
+_RS = "readset.thisptr"
+_NR = "len(readset.thisptr.reads)"
+R.contract(
+    "_construct_indexes", params={"readset": REF("PyReadSet"), "preferred_source_ids": MAYBE(SET(INT))}, returns=INDEXES,
+    requires=[("readset", "readset.thisptr is not None"), ("read-set-invariants", "READSET_OK(readset)")],
+    ensures=[("indexed", "INDEXED(readset.thisptr, result[0], result[1], result[2])"),
+             ("preferred-are-reads", "forall(k, implies(k in result[3], 0 <= k and k < " + _NR + "))")],
+    locals={"__comp0": DICT(INT, INT), "vcf_indices": DICT(INT, INT), "preferred_reads": SET(INT), "index": INT, "variant_index": INT,
+            "read": REF("CRead"), "variant": REF("PyVar")},
+    loops={
+        0: dict(index="pi", inv=[("indexed", "forall(j, implies(0 <= j and j < pi, positions[j] in __comp0 and __comp0[positions[j]] == j))"),
+                                 ("only-positions", "forall(p, implies(p in __comp0, 0 <= __comp0[p] and __comp0[p] < pi and positions[__comp0[p]] == p))")]),
+        1: dict(index="ri", inv=[("preferred", "forall(k, implies(k in preferred_reads, 0 <= k and k < ri))"),
+                                 ("entries", "forall(r, i, implies(0 <= r and r < ri and 0 <= i and i < len(" + _RS + ".reads[r].pos), vcf_indices[" + _RS + ".reads[r].pos[i]] in variant_to_reads_map))")]),
+        2: dict(index="vi", inv=[("preferred", "forall(k, implies(k in preferred_reads, 0 <= k and k <= ri))"),
+                                 ("entries", "forall(r, i, implies(0 <= r and r < ri and 0 <= i and i < len(" + _RS + ".reads[r].pos), vcf_indices[" + _RS + ".reads[r].pos[i]] in variant_to_reads_map))"),
+                                 ("this-read", "read is " + _RS + ".reads[ri] and index == ri and forall(i, implies(0 <= i and i < vi, vcf_indices[read.pos[i]] in variant_to_reads_map))")]),
+    },
+    extra={"desugar_comprehensions": True,
+           "ghost_definitions": [("SPAN_B/SPAN_E name the index range of each read", "SPANS_NAMED(readset.thisptr, result[1])")]},
+    props=P)
+
 
 @R.spec
 def READS_TYPED(eng, st, rs):
@@ -436,9 +538,9 @@ def READS_TYPED(eng, st, rs):
 
 _N = "len(pyreadset.thisptr.reads)"
 R.contract(
-    "readselection", params={"pyreadset": REF("PyReadSet"), "max_cov": INT, "preferred_source_ids": INT, "bridging": BOOL}, returns=SET(INT),
+    "readselection", params={"pyreadset": REF("PyReadSet"), "max_cov": INT, "preferred_source_ids": MAYBE(SET(INT)), "bridging": BOOL}, returns=SET(INT),
     requires=[("swo", "SWO()"), ("cap-non-negative", "max_cov >= 0"), ("readset", "pyreadset.thisptr is not None"),
-              ("reads-valid", "READS_TYPED(pyreadset.thisptr)")],
+              ("reads-valid", "READS_TYPED(pyreadset.thisptr)"), ("read-set-invariants", "READSET_OK(pyreadset)")],
     raises={"ValueError": "exists(r, 0 <= r and r < " + _N + " and len(pyreadset.thisptr.reads[r].pos) < 2)"},
     ensures=[
         ("selected-are-input-reads", "forall(k, implies(k in result, 0 <= k and k < " + _N + "))"),
